@@ -632,6 +632,10 @@ fn simple(ts: &[MTriple]) -> Vec<STriple> {
     ts.iter().map(triple_to_simple).collect()
 }
 
+fn write_fault_is_transient(off: usize) -> bool {
+    off % 3 == 2
+}
+
 impl Drive<'_> {
     fn wplan(&self) -> WPlan {
         let mut p = WPlan {
@@ -643,8 +647,10 @@ impl Drive<'_> {
         match self.sink {
             SinkFault::Write(off) => {
                 p.fail_at = Some(off);
-                // every offset is visited: odd ones as a "full disk" (flush stays silent)
-                p.flush_ok_after_write_fault = off % 2 == 1;
+                // every offset is visited, in one of three writer behaviours: sticky error,
+                // "full disk" (flush stays silent), transient (only that one call fails)
+                p.flush_ok_after_write_fault = off % 3 == 1;
+                p.transient = write_fault_is_transient(off);
             }
             SinkFault::Flush => p.fail_flush = true,
             _ => {}
@@ -1804,6 +1810,19 @@ fn check(case: &Case<'_>, twin: &Outcome, out: &Outcome) -> Verdict {
     // ===== 5. serializers: accepted bytes
     if c.is_serializer() {
         match case.kf {
+            SinkFault::Write(b) if out.write_fired && write_fault_is_transient(b) => {
+                // only the one call failed: whatever the serializer (or a BufWriter it owns,
+                // when dropped) wrote afterwards was accepted, so "processing stops there"
+                // shows as: the writer holds a prefix of the fault-free output
+                ensure!(
+                    out.written.len() >= b && twin.written.starts_with(&out.written),
+                    oracle("bytes_after_write_fault"),
+                    "{d}: one write call failed after {b} accepted bytes (later calls succeed); the writer ends up with {} bytes that are not a prefix of the fault-free output: the serializer went on writing after the failure\n got: {}\nwant: {}",
+                    out.written.len(),
+                    String::from_utf8_lossy(&out.written),
+                    String::from_utf8_lossy(&twin.written)
+                );
+            }
             SinkFault::Write(b) if out.write_fired => {
                 ensure!(
                     out.written.len() == b && out.written[..] == twin.written[..b.min(twin.written.len())],
